@@ -164,6 +164,8 @@ pub mod header {
     pub exec const TE: HeaderName ensures TE@ == "te"@ { HeaderName::from_static("te") }
     pub exec const USER_AGENT: HeaderName ensures USER_AGENT@ == "user-agent"@ { HeaderName::from_static("user-agent") }
     pub exec const ACCEPT: HeaderName ensures ACCEPT@ == "accept"@ { HeaderName::from_static("accept") }
+    pub exec const CONTENT_LENGTH: HeaderName ensures CONTENT_LENGTH@ == "content-length"@ { HeaderName::from_static("content-length") }
+    pub exec const ACCEPT_ENCODING: HeaderName ensures ACCEPT_ENCODING@ == "accept-encoding"@ { HeaderName::from_static("accept-encoding") }
 }
 pub mod http {
     pub use crate::{HeaderMap, HeaderName, HeaderValue};
